@@ -56,12 +56,12 @@ def run(ctx):
         ctx.assumption_failures.append({'assumption': 'A1', 'detail': bad})
     model = core.Model()
     rng = gen.rng_for(ctx.seed, 'c02')
-    n_files = 60 if ctx.quick else 1500
+    n_files = ctx.n(60, 1500)
     try:
-        for fi in files.read_files(ctx, rng, n_files, max_voxels=40_000 if ctx.quick else 150_000, versions=True):
+        for fi in files.read_files(ctx, rng, n_files, max_voxels=ctx.n(40_000, 150_000), versions=True):
             s = readcheck.ReadSession(fi)
             try:
-                readcheck.check_ops(ctx, model, s, readcheck.in_range_ops(rng, fi, 3 if ctx.quick else 6) + [('vol',)]
+                readcheck.check_ops(ctx, model, s, readcheck.in_range_ops(rng, fi, ctx.n(3, 6)) + [('vol',)]
                                     if not fi.is2d else readcheck.in_range_ops(rng, fi, 4), props=('C02',))
             finally:
                 s.close()
